@@ -110,10 +110,13 @@ class Ctx:
         return len(states)
 
     # ------------------------------------------------------------------ Go harness
-    def overlay(self, pkg, also=()):
+    def overlay(self, pkg, also=(), extra_overlay=None, extra_files=None):
         """pkg: path relative to the repository root ('.' for the root package).
         Only harness files tagged with this property's id (zz_verif_c11_test.go, zz_verif_c11_x_test.go) or with a tag
-        listed in `also` (zz_verif_<tag>_test.go) are injected, so unrelated harness files cannot break the build."""
+        listed in `also` (zz_verif_<tag>_test.go) are injected, so unrelated harness files cannot break the build.
+        Optional (C34): extra_files = {path: source} more files to ADD (path absolute or relative to the repository root;
+        must not exist); extra_overlay = {absolute original path: replacement} entries that MAY replace repository files
+        (copies of the current tree instrumented at check time)."""
         tags = [self.pid.lower()] + [a.lower() for a in also]
         if self.pid == 'warm':
             tags = None
@@ -146,17 +149,21 @@ class Ctx:
                 for fn in fns:
                     rel = os.path.relpath(os.path.join(dp, fn), extra)
                     rep[os.path.normpath(os.path.join(REPO, rel))] = os.path.join(dp, fn)
+        for dst, src in (extra_files or {}).items():
+            rep[os.path.normpath(os.path.join(REPO, dst))] = src
         for dst in rep:
             if os.path.exists(dst):
                 raise MachineryError('overlay would replace an existing repository file: %s' % dst)
+        rep.update(extra_overlay or {})
         opath = os.path.join(self.scratch, 'overlay_%s.json' % re.sub(r'\W', '_', pkg))
         with open(opath, 'w') as f:
             json.dump({'Replace': rep}, f)
         return opath
 
-    def gotest(self, pkg, run, env=None, tags='verif', timeout=1200, indir=None, name=None, count=True, also=()):
+    def gotest(self, pkg, run, env=None, tags='verif', timeout=1200, indir=None, name=None, count=True, also=(),
+               extra_overlay=None, extra_files=None):
         """Run one harness test of package pkg. The test reads $VERIF_IN/*, writes $VERIF_OUT/result.json."""
-        ov = self.overlay(pkg, also)
+        ov = self.overlay(pkg, also, extra_overlay=extra_overlay, extra_files=extra_files)
         name = name or run
         outdir = os.path.join(self.scratch, 'out_' + re.sub(r'\W', '_', name))
         shutil.rmtree(outdir, ignore_errors=True)
@@ -164,8 +171,11 @@ class Ctx:
         e = dict(os.environ)
         e.update({'GOFLAGS': '-mod=mod', 'GOPROXY': 'off', 'VERIF_IN': indir or self.scratch, 'VERIF_OUT': outdir,
                   'VERIF_SEED': str(self.seed), 'VERIF_TIER': self.tier, 'VERIF_PROP': self.pid})
-        e.pop('GOSUMDB', None)
+        e.pop('GOSUMDB', None)       # GOSUMDB=off breaks the switch to the cached go1.26 toolchain
+        e['GOTOOLCHAIN'] = 'auto'    # plain go is 1.23; /repo needs the cached 1.26 toolchain whatever the caller exported
         e.update(env or {})
+        if os.environ.get('VERIF_GOTEST_TIMEOUT'):      # development aid: cap the harness run
+            timeout = min(timeout, int(os.environ['VERIF_GOTEST_TIMEOUT']))
         cmd = ['go', 'test', '-overlay', ov, '-tags', tags, '-run', '^%s$' % run, '-count=1', '-vet=off',
                '-timeout', '%ds' % timeout, '.']
         t = time.time()
